@@ -7,7 +7,7 @@ import NeatviVerif.Lemmas.C05fU
    then asks `uc_sub` for a part of the missing line.  The model traps (`mark_beyond_buffer_traps`, checked by the
    kernel).  The C code is *safe* here: `lbuf_get` returns NULL and `uc_chr(NULL, …)` returns its static `""` for
    both ends — see the report: the model is stricter than the code at this point.
-2. **a counted `/` whose match reaches the end of its line** (`SlashOk` fails): the next search is started beyond
+2. **a counted `/` whose match reaches the end of its line** (`SearchOk.slash` fails): the next search is started beyond
    the line, `uc_chr` returns `""` and the pointer difference `"" - s` is formed (`counted_slash_overrun`).
 -/
 set_option linter.unusedSimpArgs false
@@ -82,7 +82,7 @@ theorem counted_slash_overrun (cnt : Int) (s : VS) (kwd : Bytes) (r o r' o' len 
   rw [if_pos (by simp; omega)]
   exact rep_succ_trap _ _ _ _ _ _ _ _ _ (by omega) h2
 
-/-! ### `EngineOk` holds on the literal fast path of `rstr.c` -/
+/-! ### the literal fast path of `rstr.c`: matches start inside the subject (`ReOk`, the position clause of the old `EngineOk`) -/
 
 theorem literalLoop_some (rs : RStr) (lit s : Bytes) : ∀ (f : Nat) (r e : Int), 0 ≤ r →
     ∃ x, literalLoop rs lit s f r e = some x ∧ ∀ k, x = some k → ((k : Nat) : Int) ≤ e := by
@@ -142,26 +142,25 @@ theorem engineOk_simple (kw : Bytes) (flg : Nat) (h : (simple kw).isSome = true)
 
 /-! ### restatements as "does not trap" -/
 
-theorem viMotion_no_trap (hE : EngineOk) (row off : Int) (s : VS) {c : Prop} (hs : SOk s c) (hcur : CurOk s row off)
-    (hmk : MarksIn s) (hsl : SlashOk s) :
+theorem viMotion_no_trap (row off : Int) (s : VS) {c : Prop} (hs : SOk s c) (hcur : CurOk s row off)
+    (hmk : MarksIn s) (hsl : SearchOk s) :
     viMotion row off s ≠ Res.trap ∧
     ∀ mv r o s', viMotion row off s = Res.ok (mv, r, o) s' → 0 < mv → PosIn (lines s) r o := by
-  have h := wp_viMotion hE row off s hs hcur hmk hsl (fun res s' => 0 < res.1 → PosIn (lines s) res.2.1 res.2.2)
+  have h := wp_viMotion row off s hs hcur hmk hsl (fun res s' => 0 < res.1 → PosIn (lines s) res.2.1 res.2.2)
     (fun mv r o s' _ hp _ => hp)
   exact ⟨wp_no_trap h, fun mv r o s' hm hpos => wp_post h hm hpos⟩
 
-theorem viSearch_no_trap (hE : EngineOk) (cmd : Nat) (cnt r o : Int) (s : VS) {c : Prop} (hs : SOk s c)
+theorem viSearch_no_trap (cmd : Nat) (cnt r o : Int) (s : VS) {c : Prop} (hs : SOk s c) (hkw : NoNul s.ed.xkwd)
     (hp : PosIn (lines s) r o) (ho : lenOf s ≠ 0 → o < slenAt (lines s) r)
-    (hsl : cmd = 47 → 2 ≤ cnt → viSearch cmd cnt r o s ≠ Res.trap) : viSearch cmd cnt r o s ≠ Res.trap :=
-  wp_no_trap (wp_viSearch hE cmd cnt r o s hs hp ho hsl (fun _ _ => True) (fun _ _ _ _ => trivial))
+    (hsl : cmd = 47 → 2 ≤ cnt → viSearch cmd cnt r o s ≠ Res.trap)
+    (hpos : cmd ≠ 47 → 2 ≤ cnt → ∀ ab s1, sPre cmd s = Res.ok ab s1 → ∀ ic, PatIn s1.ed.xkwd ic (lines s)) :
+    viSearch cmd cnt r o s ≠ Res.trap :=
+  wp_no_trap (wp_viSearch cmd cnt r o s hs hkw hp ho hsl hpos (fun _ _ => True) (fun _ _ _ _ _ => trivial))
 
-theorem viSearch_no_trap_uncounted (hE : EngineOk) (cmd : Nat) (cnt r o : Int) (s : VS) {c : Prop} (hs : SOk s c)
-    (hp : PosIn (lines s) r o) (ho : lenOf s ≠ 0 → o < slenAt (lines s) r) (h : cmd ≠ 47 ∨ cnt ≤ 1) :
-    viSearch cmd cnt r o s ≠ Res.trap := by
-  refine viSearch_no_trap hE cmd cnt r o s hs hp ho (fun h1 h2 => ?_)
-  rcases h with h | h
-  · exact absurd h1 h
-  · omega
+theorem viSearch_no_trap_uncounted (cmd : Nat) (cnt r o : Int) (s : VS) {c : Prop} (hs : SOk s c) (hkw : NoNul s.ed.xkwd)
+    (hp : PosIn (lines s) r o) (ho : lenOf s ≠ 0 → o < slenAt (lines s) r) (h : cnt ≤ 1) :
+    viSearch cmd cnt r o s ≠ Res.trap :=
+  viSearch_no_trap cmd cnt r o s hs hkw hp ho (fun _ h2 => by omega) (fun _ h2 => by omega)
 
 theorem operators_no_trap {s : VS} {c : Prop} (hs : SOk s c) (cmd : Nat) (r1 o1 r2 o2 : Int) (ln : Bool)
     (hr1 : 0 ≤ r1) (hr : r1 ≤ r2) (h1 : o1 ≤ slenAt (lines s) r1) (h2 : o2 ≤ slenAt (lines s) r2) :
